@@ -4,16 +4,17 @@
     struct keeps the prior value of every field that is absent from the data
     and merges the present ones recursively; a non-nil pointer's target is
     merged into, a nil one gets a fresh zero target; counted slices decode every
-    element into a zero element.  PARTIAL: proved for the [rt_ok] fragment; maps
-    (entries merged by key), the repeated-field forms (appended) and the
-    independence from pools / intern tables are decided by the correspondence
+    element into a zero element; map entries are merged by key in wire order (a
+    key decodes from zero, a value into the entry already held under that key);
+    the repeated-field forms append.  PARTIAL: proved for the [rt_ok] fragment;
+    the independence from pools / intern tables is decided by the correspondence
     over operation histories (the model is stateless, so any history dependence
     of the implementation shows up as a mismatch). *)
 From Plenc Require Import Base Varint Wire JsonAny Codec SizeProofs Registry CorrCore RoundTrip RoundTripZero.
 Open Scope N_scope.
 
 (** Unmarshal into a target holding [prior] computes exactly the merge rules *)
-Theorem C10_merge_partial : forall c v prior, rt_ok c -> wfv c v -> fits c v -> omit c v = false ->
+Theorem C10_merge_partial : forall c v prior, rt_ok c -> top_ok c -> wfv c v -> fits c v -> omit c v = false ->
   dec c (if omit c v then [] else enc c v []) (wire c) prior = Ok (merge c prior v, len (enc c v [])).
 Proof. exact unmarshal_marshal. Qed.
 Print Assumptions C10_merge_partial.
@@ -43,6 +44,17 @@ Theorem C10_slice_elements_from_zero : forall c prior l,
   merge (CSliceLen c) prior (VSlice l) = VSlice (map (fun x => merge c (zero c) x) l).
 Proof. reflexivity. Qed.
 Print Assumptions C10_slice_elements_from_zero.
+
+Theorem C10_map_entries_merged_by_key : forall kc vc prior es,
+  merge (CMap kc vc) prior (VMap (Some es))
+  = VMap (Some (fold_left (entry_merge kc vc) es (match prior with VMap (Some m) => m | _ => [] end))).
+Proof. exact merge_map. Qed.
+Print Assumptions C10_map_entries_merged_by_key.
+
+Theorem C10_repeated_form_appends : forall c prior l,
+  merge (CSliceProto c) prior (VSlice l) = VSlice (slice_elems prior ++ map (fun x => merge c (zero c) x) l).
+Proof. reflexivity. Qed.
+Print Assumptions C10_repeated_form_appends.
 
 (** decoding into a fresh variable does not depend on anything else: it is the
     value itself (C01) *)
